@@ -263,8 +263,11 @@ Section Conv.
   Variable t0 : N.                  (* when it was made *)
   Variable L : list (N * N).        (* the (stable) links *)
 
-  (** hop limits do not cut the mesh: none, or at least the number of agents *)
-  Hypothesis Hlim : forall n, limit_of cf n = 0 \/ N.of_nat K <= limit_of cf n.
+  (** hop limits do not cut the mesh: none, or at least K - 1, the longest
+      path an advertisement can have among K agents (a path never repeats an
+      agent and never contains its receiver).  This includes the boundary: a
+      chain of max_hops + 1 agents, whose ends are exactly max_hops apart. *)
+  Hypothesis Hlim : forall n, limit_of cf n = 0 \/ N.of_nat K <= limit_of cf n + 1.
 
   Definition seenk (s : state) (n : N) : Prop := has_seen s n o sq = true.
   Definition isk (m : msg) : Prop := is_key o sq m = true.
@@ -519,29 +522,41 @@ Section Conv.
       + unfold fresh_entry. repeat split; auto; congruence.
   Qed.
 
-  (** the path of a frame whose receiver is not in its seen-by list is shorter
-      than the number of agents, so limits that do not cut never apply *)
+  (** the path of a frame whose receiver is not in its seen-by list has at most
+      K - 1 hops, so limits that do not cut never make the receiver drop it;
+      and they stop it from forwarding only when the frame has already been
+      seen by every other agent *)
   Lemma limits_never_apply : forall s m,
     (exists ops0, s = run cf (init K) ops0) -> In m (st_flight s) ->
     ~ In (m_to m) (a_seenby (m_adv m)) -> (N.to_nat (m_to m) < K)%nat ->
     over_limit (limit_of cf (m_to m)) (lenN (a_path (m_adv m))) = false /\
-    at_limit (limit_of cf (m_to m)) (lenN (a_path (m_adv m))) = false /\
+    (at_limit (limit_of cf (m_to m)) (lenN (a_path (m_adv m))) = false \/
+     forall p, (N.to_nat p < K)%nat -> In p (a_seenby (m_adv m) ++ [m_to m])) /\
     memN (m_to m) (a_path (m_adv m)) = false /\ In (a_origin (m_adv m)) (a_seenby (m_adv m)).
   Proof.
     intros s m [ops0 Es] Hm Hnot HtK. subst s.
     destruct (path_inv_run cf K ops0) as [_ [_ HP]]. destruct (HP _ Hm) as [P1 [P2 [P3 [P4 P5]]]].
     destruct (metric_inv_run cf (fun _ => True) K ops0) as [_ [_ HM]]. { apply Forall_forall; auto. }
     destruct (HM _ Hm) as [M1 _].
-    assert (Hlen : (length (a_path (m_adv m)) < K)%nat).
-    { assert (L1 : (length (a_path (m_adv m)) <= length (a_seenby (m_adv m)))%nat).
-      { apply NoDup_incl_length; auto. }
-      assert (L2 : (length (a_seenby (m_adv m) ++ [m_to m]) <= K)%nat).
-      { apply NoDup_bounded_length; [apply NoDup_app_single; auto|].
-        intros x Hx. apply in_app_or in Hx. destruct Hx as [Hx|[Hx|[]]]; subst; auto. }
-      rewrite app_length in L2. simpl in L2. lia. }
+    assert (L1 : (length (a_path (m_adv m)) <= length (a_seenby (m_adv m)))%nat).
+    { apply NoDup_incl_length; auto. }
+    assert (ND : NoDup (a_seenby (m_adv m) ++ [m_to m])) by (apply NoDup_app_single; auto).
+    assert (Hin : forall x, In x (a_seenby (m_adv m) ++ [m_to m]) -> (N.to_nat x < K)%nat).
+    { intros x Hx. apply in_app_or in Hx. destruct Hx as [Hx|[Hx|[]]]; subst; auto. }
+    assert (L2 : (length (a_seenby (m_adv m) ++ [m_to m]) <= K)%nat) by (apply NoDup_bounded_length; auto).
+    assert (L3 : length (a_seenby (m_adv m) ++ [m_to m]) = S (length (a_seenby (m_adv m)))).
+    { rewrite app_length. simpl. lia. }
     repeat split.
-    - unfold over_limit, lenN. destruct (Hlim (m_to m)) as [H|H]; rewrite ?H; simpl; auto. lia.
-    - unfold at_limit, lenN. destruct (Hlim (m_to m)) as [H|H]; rewrite ?H; simpl; auto. lia.
+    - unfold over_limit, lenN. destruct (Hlim (m_to m)) as [H|H]; [rewrite H; simpl; auto|]. lia.
+    - destruct (at_limit (limit_of cf (m_to m)) (lenN (a_path (m_adv m)))) eqn:At; auto. right.
+      assert (Hfull : (K <= length (a_seenby (m_adv m) ++ [m_to m]))%nat).
+      { unfold at_limit, lenN in At. destruct (Hlim (m_to m)) as [H|H]; [rewrite H in At; simpl in At; discriminate|]. lia. }
+      intros p Hp.
+      assert (Hincl : incl (nodes_from K 0) (a_seenby (m_adv m) ++ [m_to m])).
+      { apply NoDup_length_incl; auto.
+        - assert (Ln : forall k st, length (nodes_from k st) = k) by (induction k; simpl; auto). rewrite Ln. auto.
+        - intros x Hx. apply In_nodes_from. specialize (Hin x Hx). lia. }
+      apply Hincl. apply In_nodes_from. lia.
     - apply memN_false_iff. intros H. apply Hnot. auto.
     - auto.
   Qed.
@@ -622,7 +637,6 @@ Section Conv.
           unfold seenk. rewrite Sk. unfold has_seen. rewrite SeenN0. rewrite <- Ho, <- Hq. auto.
       + destruct Hcase as [[Bad _]|[_ [_ [He Hout]]]].
         { rewrite Msb, Ov in Bad. discriminate. }
-        rewrite At in Hout.
         (* first processing at n: mark, store, forward *)
         assert (SkN : seenk s3 n).
         { unfold seenk, has_seen. rewrite SeenN, Hsn, seen_has_app. unfold seen_key. simpl.
@@ -635,7 +649,15 @@ Section Conv.
         { intros x Ex Hx. unfold seenk, has_seen in *. rewrite SeenO in Hx; auto. }
         assert (OutSpec : forall m', In m' out <-> exists p, m' = {| m_from := n; m_to := p; m_adv := forward_adv n a |} /\
                              In p (flood_targets (with_flight s fl1) n from (a_seenby a ++ [n]))).
-        { intros m'. rewrite Hout. rewrite in_map_iff. split; intros [p [A B]]; exists p; auto. }
+        { intros m'. rewrite Hout.
+          destruct (at_limit (limit_of cf n) (lenN (a_path a))) eqn:AtE.
+          - (* at the limit nothing is sent -- and nobody is left to send to *)
+            destruct At as [At|Full]; [congruence|]. split; [intros []|].
+            intros [p [_ Hp]]. exfalso. apply In_flood_targets in Hp. destruct Hp as [Hnb [_ Hps]].
+            apply In_neighbours in Hnb. destruct Hnb as [_ HpK0].
+            apply memN_false_iff in Hps. apply Hps. apply Full.
+            unfold num_nodes in *. simpl in HpK0. lia.
+          - rewrite in_map_iff. split; intros [p [A B]]; exists p; auto. }
         assert (Jn : forall e, In e (ns_entries ns) -> e_origin e = o -> e_seq e < sq \/ (e_seq e = sq /\ t0 <= e_upd e)).
         { intros e Hin Hoe. left. rewrite <- EntN0 in Hin.
           pose proof (cv_bound_e s C n e Hno Hin Hoe).
@@ -801,7 +823,7 @@ End Conv.
 
 (** the state right after an origin announces satisfies the flood invariant *)
 Theorem conv_start : forall cf K ops0 o ns0,
-  (forall n, limit_of cf n = 0 \/ N.of_nat K <= limit_of cf n) ->
+  (forall n, limit_of cf n = 0 \/ N.of_nat K <= limit_of cf n + 1) ->
   let s0 := run cf (init K) ops0 in
   get (st_nodes s0) o = Some ns0 ->
   conv cf K o (ns_seq ns0 + 1) (route_keys (sort_by route_ltb (ns_locals ns0 ++ [presence o])))
@@ -868,7 +890,7 @@ Qed.
     announcement's sequence number, refreshed no earlier than the
     announcement. *)
 Theorem announcement_reaches_everyone : forall cf K ops0 o ns0 ops,
-  (forall n, limit_of cf n = 0 \/ N.of_nat K <= limit_of cf n) ->
+  (forall n, limit_of cf n = 0 \/ N.of_nat K <= limit_of cf n + 1) ->
   let s0 := run cf (init K) ops0 in
   get (st_nodes s0) o = Some ns0 ->
   let sq := ns_seq ns0 + 1 in
